@@ -23,7 +23,7 @@ Quick == Tier = "quick"
 \* building blocks of driver scenarios
 Life == 60
 Ans0 == [mode |-> "honest", id |-> "good", variant |-> 0, expiresIn |-> Life, rt |-> TRUE, rotate |-> FALSE, omitId |-> FALSE,
-         omitAt |-> FALSE, tt |-> "Bearer", audArray |-> FALSE, extra |-> FALSE, big |-> FALSE, idLife |-> Life, rfNonce |-> "same", keySet |-> ""]
+         omitAt |-> FALSE, tt |-> "Bearer", audArray |-> FALSE, extra |-> FALSE, big |-> FALSE, iatSkew |-> 0, idLife |-> Life, rfNonce |-> "same", keySet |-> ""]
 NoExp(a) == [x \in (DOMAIN a) \ {"expiresIn"} |-> a[x]]
 
 Flt(name, fwd, store) == [name |-> name, store |-> store, accessFwd |-> fwd, logout |-> TRUE, prefix |-> "", abs |-> 0, idle |-> 0,
@@ -75,7 +75,7 @@ C02Scn(p) ==
 (* C03: compliant provider answer shapes x configurations x originally requested URLs *)
 URLs == 0..9
 C03Core == [expiresIn : BOOLEAN, rt : BOOLEAN, fwd : BOOLEAN, store : {"memory", "redis"}]
-C03Alt  == {"none", "audArray", "bearerLower", "bearerUpper", "extra", "big", "prefix", "noLogout", "scopes", "discovery", "rules", "cbPort"}
+C03Alt  == {"none", "audArray", "bearerLower", "bearerUpper", "extra", "big", "clockAhead", "prefix", "noLogout", "scopes", "discovery", "rules", "cbPort"}
 C03Space == IF Quick
             THEN [core : C03Core, alt : {"none"}, url : URLs] \cup [core : C03Core, alt : C03Alt, url : {1}]
             ELSE [core : C03Core, alt : C03Alt, url : URLs]
@@ -85,6 +85,7 @@ C03Scn(p) ==
                          !.audArray = (p.alt = "audArray"),
                          !.tt = (IF p.alt = "bearerLower" THEN "bearer" ELSE IF p.alt = "bearerUpper" THEN "BEARER" ELSE "Bearer"),
                          !.extra = (p.alt = "extra"),
+                         !.iatSkew = (IF p.alt = "clockAhead" THEN 4 ELSE 0),
                          !.big = (p.alt = "big")]      \* a large answer: an ID token with hundreds of group claims, a long extra member
       a  == IF p.core.expiresIn THEN a0 ELSE NoExp(a0)
       f0 == Flt("f1", p.core.fwd, p.core.store)
@@ -146,7 +147,7 @@ C05Scn(p) ==
 ---------------------------------------------------------------------------
 (* C11: refresh histories against provider policies *)
 Policies == {"noRotate", "rotate", "rotateSometimes", "omitId", "omitAt", "omitExp", "omitAll", "keyChange", "failBefore", "failAfter",
-             "badSig", "badAud", "http400", "garbageId", "foreignNonce", "failAfter503", "dropAfter", "dropBefore", "shorterLifetime"}
+             "badSig", "badAud", "http400", "garbageId", "foreignNonce", "failAfter503", "dropAfter", "dropBefore", "shorterLifetime", "clockAhead"}
 C11Space == [pol : Policies, n : IF Quick THEN {1, 3} ELSE 1..6, fwd : BOOLEAN, store : {"memory", "redis"}]
 
 PolAns(pol, i) ==
@@ -164,6 +165,7 @@ PolAns(pol, i) ==
     [] pol = "dropAfter" -> [Ans0 EXCEPT !.mode = "drop-after", !.rotate = TRUE]
     [] pol = "dropBefore" -> [Ans0 EXCEPT !.mode = "drop"]
     [] pol = "shorterLifetime" -> [Ans0 EXCEPT !.expiresIn = 20, !.rotate = TRUE]      \* the refresh grants a shorter access-token lifetime than the login did
+    [] pol = "clockAhead" -> [Ans0 EXCEPT !.iatSkew = 4, !.rotate = TRUE]   \* the provider's clock runs a few seconds ahead of the service's (iat, nbf in the near future)
     [] pol = "badSig" -> [Ans0 EXCEPT !.id = "foreignKey"]
     [] pol = "badAud" -> [Ans0 EXCEPT !.id = "audForeign"]
     [] pol = "http400" -> [Ans0 EXCEPT !.mode = "status:400"]
